@@ -17,8 +17,8 @@ def G(pid, mode, fn, m, n, props, kind="owned", bw=None, extra=None, timeout=900
             b = mat(rows, cols, extra.pop("bkind", "owned") if extra else "owned", "B_")
             b.pop("B_NR"), b.pop("B_NC")
             d.update(b)
-            d["VRMAX"] = max(m, rows, cols)
-            d["VCMAX"] = max(m, rows, cols)
+            d["VRMAX"] = max(m, rows, 2)
+            d["VCMAX"] = max(m, cols, 2)
     if extra:
         d.update(extra)
     tag = "%dx%d%s.%s%s%s" % (m, n, (".bw%d" % bw) if bw is not None else "", kind, "".join(".%s%s" % (k.lower(), v) for k, v in sorted((extra or {}).items())), "" if config == "host" else "." + config)
@@ -46,10 +46,9 @@ def prows_groups(tier, props=("C02", "C12", "C09", "C11")):
     if not q:
         # measured: chunks of 9-10 bits (k = 33..40 with 4-6 tables, 512/1024-row tables) run out of memory; kept below that
         cases += [(2, 12, 200, 120, "view1", 0, 3), (3, 15, 200, 64, "owned", 0, 2), (4, 20, 130, 40, "owned", 0, 2), (6, 24, 130, 30, "owned", 0, 2)]
-    # concrete tables (contents and maps fixed, rows of M symbolic): the chunk sizes the symbolic tables cannot reach (pivot bits beyond 32)
-    conc = [(4, 34, 130, 20, "owned", 0, 2), (2, 18, 130, 50, "view1", 0, 2)]
-    if not q:
-        conc += [(6, 48, 130, 10, "owned", 0, 2), (5, 40, 200, 60, "view1", 0, 2), (3, 27, 130, 40, "owned", 0, 2)]
+    # measured (and dropped): tables with concrete contents and identity maps (-DCONCTAB in k_prows.c) for chunks of 9 bits
+    # (k = 18 with 2 tables, k = 34 with 4): out of memory at 24 GB / no verdict after 900 s either way
+    conc = []
     for nt, k, nc, ccol, kind, lo, hi in cases + conc:
         d = mat(3, nc, kind)
         dd = dict(d)
@@ -62,7 +61,7 @@ def prows_groups(tier, props=("C02", "C12", "C09", "C11")):
         maxrows = 1 << ((k + nt - 1) // nt + 1)
         gs.append(Group(gid="K.%s.%s" % (fn, tag), props=list(props), harness="k_prows.c", function=fn, layer="K", defines=dd, tus=TUS, assert_mode=True,
                         unwind=max(maxrows, 66) + 2, bounded=True, bound_note="shape " + tag, shape=tag, timeout=900, mem_gb=24 if k > 20 else 12, slots=2 if k > 20 else 1,
-                        solver="--sat-solver cadical", cbmc_flags=["--arrays-uf-always"] if k > 20 else [],
+                        solver="--sat-solver cadical", cbmc_flags=["--arrays-uf-always"] if (k > 20 and "CONCTAB" not in dd) else [],
                         # several tables: the SSE2 _mzd_combine_N kernels with symbolic table-row pointers exhaust memory (measured, also in the design
                         # round); the multi-table variants are decided in the scalar configuration
                         config="host" if nt == 1 else "scalar"))
@@ -102,6 +101,8 @@ def c04(tier):
     for mode, fn in (("TRSM_LL", "mzd_trsm_lower_left"), ("TRSM_UL", "mzd_trsm_upper_left"), ("TRSM_UR", "mzd_trsm_upper_right"), ("TRSM_LR", "mzd_trsm_lower_right")):
         gs.append(G("C04", mode, fn, 4, 4, P, bw=3))
         gs.append(G("C04", mode, fn, 3, 3, P, kind="view1", bw=4, extra={"bkind": "view1"}))
+        if mode in ("TRSM_UR", "TRSM_LR"):   # right-hand base case with more than one group of 64 rows of B
+            gs.append(G("C04", mode, fn, 2, 2, P, bw=66))
         if tier == "thorough":
             gs.append(G("C04", mode, fn, 5, 5, P, kind="view1", bw=66, extra={"bkind": "view1"}, timeout=3600))
             gs.append(G("C04", mode, fn, 6, 6, P, bw=130, timeout=3600))
